@@ -65,6 +65,14 @@ type fswScenario struct {
 	later map[string][]byte // files written before the second refresh
 }
 
+func h0x(a ethtypes.Address0xHex, with0x bool) string {
+	h := a.String()
+	if !with0x {
+		h = strings.TrimPrefix(h, "0x")
+	}
+	return h
+}
+
 const fswRegex = `^(?:UTC--[0-9TZ\-]+--)?((?:0x)?[0-9a-fA-F]{38,42})\.json$`
 
 func buildFswScenario(r *Rng, root string, idx int) *fswScenario {
@@ -147,6 +155,7 @@ func buildFswScenario(r *Rng, root string, idx int) *fswScenario {
 	files := map[string][]byte{}
 	later := map[string][]byte{}
 	expect := map[string]any{}
+	var pwDirs []string
 	nameOf := func(a *fswAccount) string {
 		h := hx(a.addr[:])
 		if conf.Filenames.With0xPrefix || (mode == "regex" && r.Bool()) {
@@ -177,6 +186,10 @@ func buildFswScenario(r *Rng, root string, idx int) *fswScenario {
 			pwContent = a.pw + "\n"
 		}
 		pwFileWritten := variant != "nopassword" && !(useDefaultPw && a.pw == defaultPw && r.Bool())
+		// with a default password in play: the metadata may carry no password entry at all, or the per-key
+		// password path may be a directory (unreadable as a file) - the default file is then the usable password
+		noPwEntry := isMeta && !pwFileWritten && r.Bool()
+		pwIsDir := !pwFileWritten && !noPwEntry && useDefaultPw && r.Intn(3) == 0
 		if isMeta {
 			keyFile := path.Join(root, fmt.Sprintf("keys%d-%d.json", idx, i))
 			pwFile := path.Join(root, fmt.Sprintf("keys%d-%d.pw", idx, i))
@@ -188,11 +201,24 @@ func buildFswScenario(r *Rng, root string, idx int) *fswScenario {
 			switch effFormat {
 			case "toml":
 				metaDoc = fmt.Sprintf("[signing]\ntype = \"file-based-signer\"\nkey-file = %q\npassword-file = %q\n", keyFile, pwFile)
+				if noPwEntry {
+					metaDoc = fmt.Sprintf("[signing]\ntype = \"file-based-signer\"\nkey-file = %q\n", keyFile)
+				}
 			case "yaml":
 				metaDoc = fmt.Sprintf("keyfile: %q\npwfile: %q\n", keyFile, pwFile)
+				if noPwEntry {
+					metaDoc = fmt.Sprintf("keyfile: %q\n", keyFile)
+				}
 			case "json":
-				b, _ := json.Marshal(map[string]any{"keyfile": keyFile, "pwfile": pwFile})
+				mm := map[string]any{"keyfile": keyFile, "pwfile": pwFile}
+				if noPwEntry {
+					delete(mm, "pwfile")
+				}
+				b, _ := json.Marshal(mm)
 				metaDoc = string(b)
+			}
+			if pwIsDir {
+				pwDirs = append(pwDirs, pwFile)
 			}
 			if r.Intn(8) == 0 {
 				metaDoc = "this is ::: not parseable [[["
@@ -207,6 +233,8 @@ func buildFswScenario(r *Rng, root string, idx int) *fswScenario {
 					h = strings.TrimPrefix(h, "0x")
 				}
 				target[path.Join(pwDir, h+conf.Filenames.PasswordExt)] = []byte(pwContent)
+			} else if pwIsDir {
+				pwDirs = append(pwDirs, path.Join(pwDir, h0x(a.addr, conf.Filenames.With0xPrefix)+conf.Filenames.PasswordExt))
 			}
 		}
 		okExpected := variant == "ok" && (pwFileWritten || (useDefaultPw && a.pw == defaultPw))
@@ -229,6 +257,9 @@ func buildFswScenario(r *Rng, root string, idx int) *fswScenario {
 	}
 	subdir := path.Join(dir, hx(r.Bytes(20))+conf.Filenames.PrimaryExt)
 	_ = os.MkdirAll(subdir, 0o755)
+	for _, d := range pwDirs {
+		_ = os.MkdirAll(d, 0o755)
+	}
 	for p, b := range files {
 		_ = os.WriteFile(p, b, 0o600)
 	}
